@@ -6,7 +6,7 @@ import tvlib, harness_acd, harness_glm, kernels
 import solverlib as sl
 
 GEN_SOURCES = ["skglm/solvers/anderson_cd.py", "skglm/solvers/group_bcd.py", "skglm/datafits/group.py", "skglm/solvers/prox_newton.py"]
-EXTRA_TARGETS = ["Skel/MockACD.vo", "Skel/GlmFit.vo", "Lemmas/GlmStart.vo", "Gen/KernBCD.vo", "Gen/DfGroup.vo", "Gen/PenBlock.vo", "Gen/KernCD.vo", "Gen/SparseOps.vo", "Gen/ProxFuncs.vo", "Gen/KernPN.vo", "Gen/PenSeparable.vo", "Gen/DfSingle.vo"]
+EXTRA_TARGETS = ["Skel/MockACD.vo", "Skel/GlmFit.vo", "Lemmas/GlmStart.vo", "Gen/KernBCD.vo", "Gen/DfGroup.vo", "Gen/PenBlock.vo", "Gen/KernCD.vo", "Gen/SparseOps.vo", "Gen/ProxFuncs.vo", "Gen/KernPN.vo", "Gen/PenSeparable.vo", "Gen/DfSingle.vo", "Skel/NonVacuity.vo"]
 TRUSTED_BASE = [
     "Coq 8.16.1 kernel (coqc); vm_compute only in correspondence files",
     "axioms: Reals axioms + funext + classic (consistency theorem over R); the path / history theorems are axiom-free",
